@@ -7,6 +7,7 @@ import enum
 import hashlib
 import inspect
 import operator
+import re
 import struct
 import textwrap
 import types
@@ -233,6 +234,11 @@ class Interp:
             return _enum_lookup(fn, args[0])
         bself = getattr(fn, "__self__", None)
         name = getattr(fn, "__name__", "")
+        if isinstance(bself, re.Pattern) and name in ("match", "fullmatch", "search") and args and isinstance(args[0], (S.SymStr, S.AnyStr)):
+            return _regex_call(bself.pattern, bself.flags, name, args[0])
+        if fn in (re.match, re.fullmatch, re.search) and len(args) >= 2 and isinstance(args[1], (S.SymStr, S.AnyStr)):
+            flags = args[2] if len(args) > 2 else kwargs.get("flags", 0)
+            return _regex_call(args[0], int(flags), fn.__name__, args[1])
         if bself is int and name == "from_bytes":
             return S.int_from_bytes(*args, **kwargs)
         if isinstance(bself, (bytes, bytearray)) and isinstance(fn, types.BuiltinMethodType):
@@ -730,6 +736,36 @@ def _enum_lookup(cls, v):
             return m
     c = Engine.current.concretize(v)
     return cls(c)  # _missing_ / ValueError natively
+
+
+class RegexProbe(EngineSignal):
+    """raised when a regular expression is applied to the universal string S.AnyStr: carries what was asked"""
+
+    def __init__(self, pattern, flags, method):
+        self.pattern, self.flags, self.method = pattern, flags, method
+
+
+def _regex_call(pattern, flags, method, subject):
+    from . import regex as R
+
+    if isinstance(subject, V.AnyStr):
+        raise RegexProbe(pattern, flags, method)
+    if method == "search":
+        raise Unsupported("re.search on a structured string")
+    lang = R.language(R.translate(pattern, flags), method)
+    parts = []
+    for p in subject.parts:
+        if isinstance(p, str):
+            parts.append(p)
+        elif p[0] == "dec":
+            parts.append(("dec", p[1].lo, p[1].hi))
+        else:
+            # a symbolic character: fork on its value class is not modelled -> concretise it
+            parts.append(chr(Engine.current.concretize(p[1])))
+    r = R.decide_membership(parts, lang)
+    if r is None:
+        raise Unsupported("regex match depends on the values of the symbolic decimal fields")
+    return R.FakeMatch() if r else None
 
 
 class _Ratio:
